@@ -64,6 +64,7 @@ inductive Rx where
   | eps
   | chr (c : Char)
   | any                                                  -- `.` : anything but LF
+  | all                                                  -- `(?s:.)` : any character (`.` under DOTALL)
   | set (neg : Bool) (items : List CItem)                -- `[...]` / `[^...]`
   | esc (k : Esc) (neg : Bool)                           -- `\d \w \s` / `\D \W \S`
   | seq (a b : Rx)
@@ -112,6 +113,7 @@ def run (u : Ucd) : Rx → Text → Res
   | .eps, s => [([], s)]
   | .chr a, s => one (· = a) s
   | .any, s => one (· ≠ '\n') s
+  | .all, s => one (fun _ => true) s
   | .set neg items, s => one (setTest u neg items) s
   | .esc k neg, s => one (escTest u k neg) s
   | .seq a b, s => (run u a s).flatMap fun x => (run u b x.2).map (pre x.1)
@@ -125,7 +127,7 @@ def run (u : Ucd) : Rx → Text → Res
 /-- can match the empty string -/
 def nullable : Rx → Bool
   | .eps => true
-  | .chr _ | .any | .set _ _ | .esc _ _ => false
+  | .chr _ | .any | .all | .set _ _ | .esc _ _ => false
   | .seq a b => nullable a && nullable b
   | .alt a b => nullable a || nullable b
   | .rep _ m _ r => m == 0 || nullable r
@@ -138,7 +140,7 @@ def CItem.ok : CItem → Bool
 /-- the fragment the theorems and the correspondence cover.  Braces are excluded as literal characters because
 `route_re` gives them a meaning of its own inside `{name:regex}`. -/
 def ok : Rx → Bool
-  | .eps | .any | .esc _ _ => true
+  | .eps | .any | .all | .esc _ _ => true
   | .chr c => c ≠ '{' && c ≠ '}'
   | .set _ items => !items.isEmpty && items.all CItem.ok
   | .seq a b => ok a && ok b
@@ -186,19 +188,22 @@ def print : Rx → Text
   | .eps => []
   | .chr c => escChar c
   | .any => ['.']
+  | .all => "(?s:.)".toList
   | .set neg items => '[' :: (if neg then ['^'] else []) ++ items.flatMap CItem.print ++ [']']
   | .esc k neg => ['\\', k.letter neg]
   | .seq a b => print a ++ print b
   | .alt a b => group (print a ++ '|' :: print b)
   | .rep g m n r =>
     (match r with
-      | .chr _ | .any | .set _ _ | .esc _ _ | .alt _ _ => print r
+      | .chr _ | .any | .all | .set _ _ | .esc _ _ | .alt _ _ => print r
       | _ => group (print r)) ++ quant g m n
 
 /-- `[^/]+` -/
 def notSlashPlus : Rx := .rep true 1 none (.set true [.ch '/'])
-/-- `.*?` -/
+/-- `.*?` — the remainder group before fc43a19; `.` excludes LF -/
 def lazyDotStar : Rx := .rep false 0 none .any
+/-- `(?s:.*?)` — the remainder group: any text, shortest first -/
+def lazyAllStar : Rx := .rep false 0 none .all
 /-- `.*` -/
 def greedyDotStar : Rx := .rep true 0 none .any
 
